@@ -9,6 +9,10 @@
 //!   build                       payload = assembler source           -> build_str
 //!   buildfile <main> [inc..]    payload ignored                      -> build_file(main, {inc..})
 //!   hex <code|eeprom>           payload = hex string of image bytes  -> write_*_hex to a temp file, returns its text
+//!   tree <main> [inc..]         payload = files, each introduced by a line `@@ <relative path>`; `@ROOT@` in a file stands for
+//!                               the directory they are written to -> fresh directory, made the working directory,
+//!                               build_file(main, {inc..}), directory removed
+//!   buildcwd <dir>              payload = assembler source           -> build_str with <dir> as working directory
 use std::{fs, panic, path::PathBuf};
 
 use avra_lib::builder::{build_file, build_str, BuildResult};
@@ -70,6 +74,52 @@ fn run_job(text: &str, scratch: &PathBuf) -> String {
             let main = PathBuf::from(words.next().unwrap());
             let incs = words.map(PathBuf::from).collect();
             br_json(build_file(main, incs))
+        }
+        Some("tree") => {
+            let main = PathBuf::from(words.next().unwrap());
+            let root = scratch.join("tree");
+            let _ = fs::remove_dir_all(&root);
+            fs::create_dir_all(&root).unwrap();
+            let root_s = root.to_string_lossy().to_string();
+            let incs = words.map(|w| PathBuf::from(w.replace("@ROOT@", &root_s))).collect();
+            let mut cur: Option<(PathBuf, String)> = None;
+            let mut flush = |c: &mut Option<(PathBuf, String)>| {
+                if let Some((p, t)) = c.take() {
+                    if let Some(d) = p.parent() {
+                        fs::create_dir_all(d).unwrap();
+                    }
+                    fs::write(&p, t.replace("@ROOT@", &root_s)).unwrap();
+                }
+            };
+            for l in payload.split_inclusive('\n') {
+                if let Some(name) = l.strip_prefix("@@ ") {
+                    flush(&mut cur);
+                    cur = Some((root.join(name.trim()), String::new()));
+                } else if let Some((_, t)) = cur.as_mut() {
+                    t.push_str(l);
+                }
+            }
+            flush(&mut cur);
+            let old = std::env::current_dir().unwrap();
+            std::env::set_current_dir(&root).unwrap();
+            let r = panic::catch_unwind(|| br_json(build_file(main, incs)));
+            std::env::set_current_dir(&old).unwrap();
+            let _ = fs::remove_dir_all(&root);
+            match r {
+                Ok(s) => s.replace(&root_s, "@ROOT@"),
+                Err(e) => panic::resume_unwind(e),
+            }
+        }
+        Some("buildcwd") => {
+            let dir = PathBuf::from(words.next().unwrap());
+            let old = std::env::current_dir().unwrap();
+            std::env::set_current_dir(&dir).unwrap();
+            let r = panic::catch_unwind(|| br_json(build_str(payload)));
+            std::env::set_current_dir(&old).unwrap();
+            match r {
+                Ok(s) => s,
+                Err(e) => panic::resume_unwind(e),
+            }
         }
         Some("hex") => {
             let which = words.next().unwrap_or("code");
